@@ -54,6 +54,60 @@ Proof. exact monitor_C10. Qed.
 Theorem C10_monitor_needs_nodup : exists sc c0, ~ locals_nodup sc /\ mon_C10 sc c0 (run sc c0) = false.
 Proof. exists dup_sc, dup_c0. split; [exact (proj1 monitor_dup_refuted)|exact (proj2 (proj2 monitor_dup_refuted))]. Qed.
 
+(* ---- apply-time mutation under dry-run: the source lookup -------------------------------------
+   Object 1 carries an apply-time-mutation substitution whose source is object 0 (`l_mut`); both are
+   in the apply set.  FIRST dry-run on an empty cluster: object 0 "applies" (nothing is created), the
+   mutator of object 1 finds no entry in the resource cache (dry-run has no status watcher), reads
+   object 0 from the cluster, gets NotFound: the apply of object 1 FAILS with one ApplyFailed event
+   and NO request for it (client dry-run: no request at all; server dry-run: only the dry-run PATCH
+   of object 0).  The cluster is unchanged and the monitor holds: seed C10f (the failure reported as
+   "skipped" without an event) breaks exactly this. *)
+Definition mut_univ : list uinfo := [mkU KPlain None None; mkU KPlain None None].
+Definition mut_opts (d : dry) : opts := mkO false true PMustMatch d VSkipInvalid false true false false PropBackground false.
+Definition mut_locals : list lobj := [mkL 0 [] false false false 1; mkLM 1 [0] false false false 1 true].
+Definition mut_sc (d : dry) (f : list faddr) : scenario := mkSc mut_univ None mut_locals (mut_opts d) (mkE f [] CNever None).
+Definition mut_c0 : cluster := mkCl [] None 5%N.
+Definition apply_results (t : list item) : list (id * ast) :=
+  flat_map (fun it => match it with IEv (EApply _ i s) => [(i, s)] | _ => [] end) t.
+
+Example C10_mutation_source_missing :
+  reqs_of (out_trace (run (mut_sc DClient []) mut_c0)) = [] /\
+  apply_results (out_trace (run (mut_sc DClient []) mut_c0)) = [(0, AOk); (1, AFail)] /\
+  reqs_of (out_trace (run (mut_sc DServer []) mut_c0)) = [RPatch 0 true true] /\
+  apply_results (out_trace (run (mut_sc DServer []) mut_c0)) = [(0, AOk); (1, AFail)] /\
+  out_final (run (mut_sc DClient []) mut_c0) = norm_cluster mut_c0 /\
+  mon_C10 (mut_sc DClient []) mut_c0 (run (mut_sc DClient []) mut_c0) = true /\
+  mon_C10 (mut_sc DServer []) mut_c0 (run (mut_sc DServer []) mut_c0) = true /\
+  wf_b (mut_sc DClient []) mut_c0 = true.
+Proof. vm_compute. repeat split; reflexivity. Qed.
+
+(* The same manifests AFTER a real run (both objects created, reconciled): the dry-run mutator still has
+   an empty cache, reads the source from the cluster - a GET, the third GET of object 0 under client
+   dry-run (policy filter, kubectl, mutator), the second under server dry-run - finds it, and the dry-run
+   apply of object 1 goes through.  With exactly that GET rejected the apply of object 1 fails again,
+   without a request. *)
+Definition mut_real : scenario :=
+  mkSc mut_univ None mut_locals (mut_opts DNone)
+       (mkE [] [mkW [mkS 0 SCurrent true 5%N 2%Z] WTimeout; mkW [mkS 1 SCurrent true 6%N 2%Z] WTimeout] CNever None).
+Definition mut_c1 : cluster := out_final (run mut_real mut_c0).
+
+Example C10_mutation_source_read_from_cluster :
+  reqs_of (out_trace (run mut_real mut_c0)) = [RInvCreate [0; 1]; RCreate 0 false; RCreate 1 false] /\
+  apply_results (out_trace (run mut_real mut_c0)) = [(0, AOk); (1, AOk)] /\
+  (* dry-run over the result: the source is found by a GET *)
+  reqs_of (out_trace (run (mut_sc DClient []) mut_c1)) = [] /\
+  apply_results (out_trace (run (mut_sc DClient []) mut_c1)) = [(0, AOk); (1, AOk)] /\
+  reqs_of (out_trace (run (mut_sc DServer []) mut_c1)) = [RPatch 0 true true; RPatch 1 true true] /\
+  apply_results (out_trace (run (mut_sc DServer []) mut_c1)) = [(0, AOk); (1, AOk)] /\
+  (* that GET rejected *)
+  reqs_of (out_trace (run (mut_sc DClient [FGet 0 2]) mut_c1)) = [] /\
+  apply_results (out_trace (run (mut_sc DClient [FGet 0 2]) mut_c1)) = [(0, AOk); (1, AFail)] /\
+  reqs_of (out_trace (run (mut_sc DServer [FGet 0 1]) mut_c1)) = [RPatch 0 true true] /\
+  apply_results (out_trace (run (mut_sc DServer [FGet 0 1]) mut_c1)) = [(0, AOk); (1, AFail)] /\
+  mon_C10 (mut_sc DServer [FGet 0 1]) mut_c1 (run (mut_sc DServer [FGet 0 1]) mut_c1) = true /\
+  out_final (run (mut_sc DServer [FGet 0 1]) mut_c1) = norm_cluster mut_c1.
+Proof. vm_compute. repeat split; reflexivity. Qed.
+
 Print Assumptions C10_monitor.
 Print Assumptions C10_monitor_nodup.
 Print Assumptions C10_monitor_needs_nodup.
